@@ -11,7 +11,7 @@ import fw
 import tool
 import wire
 
-THEOREMS = []
+THEOREMS = ["TLX.Props.C13.meta_only_adds_tls", "TLX.Props.C13.meta_record_verbatim"]
 
 
 def tls_segments(out, conn):
@@ -136,6 +136,10 @@ def run(ctx):
                 "features), each run with and without -a. non-trivial iff -a adds at least one packet/byte and the "
                 "application data relation holds.")
     ctx.assumptions = []
+    ctx.prove(["TLX.Props.C13"])
+    ctx.require_theorems(THEOREMS)
+    import c06_model
+    c06_model.run_model(ctx)          # ties TLX.TcpOut to the real OutputBuilder
     explore(ctx)
     return ctx.finish(search=lambda c: explore(c, scale=2))
 
